@@ -402,6 +402,10 @@ def switch(
     case_start: int | None = None
     cases_content: list[list[list[Token]]] = []
     current_case_content: list[list[Token]] = []
+    if not list_of_tokens:
+        raise JMCSyntaxException(
+            "Switch content cannot be empty", command[2], tokenizer
+        )
     if (
         list_of_tokens[0][0].string != "case"
         or list_of_tokens[0][0].token_type != TokenType.KEYWORD
@@ -417,6 +421,10 @@ def switch(
                     "Expected case number", tokens[0], tokenizer, col_length=True
                 )
             if tokens[1].string == "-":
+                if len(tokens) < 3:
+                    raise JMCSyntaxException(
+                        "Expected case number", tokens[1], tokenizer, col_length=True
+                    )
                 count_str = tokens[1].string + tokens[2].string
                 del tokens[2]
             else:
@@ -424,7 +432,12 @@ def switch(
             if not count_str.lstrip("-").isalnum():
                 raise JMCSyntaxException("Expected case number", tokens[1], tokenizer)
 
-            count = int(count_str)
+            try:
+                count = int(count_str)
+            except ValueError as error:
+                raise JMCSyntaxException(
+                    "Expected case number", tokens[1], tokenizer
+                ) from error
             if expected_case is None:
                 expected_case = count
             if case_start is None:
@@ -446,7 +459,19 @@ def switch(
             tokens = tokens[3:]
             expected_case += 1
             case_numbers.append(count)
-        if tokens[0].string == "default" and tokens[0].token_type == TokenType.KEYWORD:
+        if (
+            len(tokens) == 1
+            and tokens[0].string == "default"
+            and tokens[0].token_type == TokenType.KEYWORD
+        ):
+            raise JMCSyntaxException(
+                "Expected colon (:)", tokens[0], tokenizer, col_length=True
+            )
+        if (
+            tokens
+            and tokens[0].string == "default"
+            and tokens[0].token_type == TokenType.KEYWORD
+        ):
             datapack.version.require(
                 PackVersionFeature.VANILLA_MACRO, tokens[1], tokenizer
             )
@@ -455,6 +480,8 @@ def switch(
             case_numbers.append("default")
             tokens = tokens[2:]
         # End If case
+        if not tokens:
+            continue
         if (
             tokens[0].string == "break"
             and tokens[0].token_type == TokenType.KEYWORD
@@ -475,12 +502,17 @@ def switch(
         )
 
     # Parse variable
-    tokens = tokenizer.parse(
+    list_of_tokens = tokenizer.parse(
         command[1].string[1:-1],
         command[1].line,
         command[1].col + 1,
         expect_semicolon=False,
-    )[0]
+    )
+    if not list_of_tokens:
+        raise JMCSyntaxException(
+            "Expected variable or objective:selector in switch", command[1], tokenizer
+        )
+    tokens = list_of_tokens[0]
 
     if len(tokens) > 1:
         if is_obj_selector(tokens):
